@@ -99,10 +99,11 @@ INVALID_EXPRESSIONS = ["MIT AND", "OR MIT", "MIT AND OR ISC", "(MIT", "MIT)", "M
 # ---- holders ---------------------------------------------------------------
 _FIRST = ["Jane", "John", "Zoë", "Łukasz", "Ng", "María-José", "O'Brien", "李", "Müller", "J. R. R.", "Анна", "Sébastien", "Nguyễn Văn", "Jean  Luc"]
 _LAST = ["Doe", "Smith", "van der Berg", "Tolkien", "Ó Súilleabháin", "Иванова", "山田", "d'Arc", "Smith-Jones", "McDonald", "Roland", "Marc", "Team C#", "Yahoo!", "Vitamin c", "Klasse C", "Team dnl"]
-_ORGS = ["Free Software Foundation Europe e.V.", "ACME, Inc.", "Foo & Bar GmbH", "Example Corp. (UK) Ltd", "The Project Authors", "Rivos Inc.", "Überwald AG", "株式会社テスト", "A-B C.D. s.r.o.", "contributors to X"]
+_ORGS = ["Free Software Foundation Europe e.V.", "ACME, Inc.", "Foo & Bar GmbH", "Example Corp. (UK) Ltd", "The Project Authors", "Rivos Inc.", "Überwald AG", "株式会社テスト", "A-B C.D. s.r.o.", "contributors to X", "The Copyright Clearance Center", "Jane Doe, Copyright Officer", "A © B Holding"]
 _SUFFIX = ["", "", "", " <jane@example.org>", " <https://example.org>", " <https://fsfe.org/a?b=c&d=e>", " and others", " (maintainer)", ", 2nd"]
 
 _TRIGGER = re.compile(r"Copyright|©|SPDX-FileCopyrightText|SPDX-SnippetCopyrightText|SPDX-License-Identifier|SPDX-FileContributor|REUSE-Ignore|\([Cc]\)")
+_TAG = re.compile(r"SPDX-FileCopyrightText|SPDX-SnippetCopyrightText|SPDX-License-Identifier|SPDX-FileContributor|REUSE-Ignore")
 _EXTRA_TERMINATORS = ['">', "'>", '"/>', "'/>", "]::", "] ::"]
 
 
@@ -110,7 +111,8 @@ def holder_ok(h: str) -> bool:
     """The documented-ambiguity exclusions of DESIGN.md §3."""
     if not h or h != h.strip() or "\n" in h or "\r" in h or "\t" in h:
         return False
-    if _TRIGGER.search(h):
+    # a tag anywhere, or a copyright marker at the very beginning (the statement would then be a notice already)
+    if _TAG.search(h) or _TRIGGER.match(h):
         return False
     if re.match(r"\d{4}", h) or h[0] in "-,":
         return False
@@ -122,26 +124,29 @@ def holder_ok(h: str) -> bool:
 
 
 @st.composite
-def holder(draw):
+def holder(draw, markers=False):
+    """*markers*: also names that contain a copyright marker word ('Jane Doe, Copyright Officer').  Only sound
+    where the value is the holder of a copyright notice: any other line holding such a word is a notice to the tool."""
+    orgs = _ORGS if markers else [o for o in _ORGS if not _TRIGGER.search(o)]
     kind = draw(st.integers(0, 3))
     if kind == 0:
-        h = draw(st.sampled_from(_ORGS))
+        h = draw(st.sampled_from(orgs))
     elif kind == 1:
         h = f"{draw(st.sampled_from(_FIRST))} {draw(st.sampled_from(_LAST))}"
     elif kind == 2:
         h = draw(st.sampled_from(_LAST))
     else:
-        h = f"{draw(st.sampled_from(_FIRST))} {draw(st.sampled_from(_LAST))}, {draw(st.sampled_from(_ORGS))}"
+        h = f"{draw(st.sampled_from(_FIRST))} {draw(st.sampled_from(_LAST))}, {draw(st.sampled_from(orgs))}"
     h += draw(st.sampled_from(_SUFFIX))
     if not holder_ok(h):  # constructive pools make this unreachable; keep as a guard
         h = "Jane Doe"
     return h
 
 
-def safe_holder():
+def safe_holder(markers=False):
     """Holders without a tail that any comment syntax could take for
     decoration (no trailing punctuation such as '!' or '#')."""
-    return holder().filter(lambda h: h[-1].isalnum() or h[-1] in ">)")
+    return holder(markers=markers).filter(lambda h: h[-1].isalnum() or h[-1] in ">)")
 
 
 def year():
